@@ -558,7 +558,13 @@ class C01(Property):
         d['tm'] = rd(lambda: sorted([cx.kid(k), [cx.vid(v) for v in vs]] for k, vs in s.todict(multi=True).items()))
         probes = [KEY_FORMS[cx.u][k][-1] for k in range(NK)]
         d['g'] = [rd(lambda: cx.vid(s.get(p, DEFAULT))) for p in probes]
-        d['gl'] = [rd(lambda: [cx.vid(v) for v in s.getlist(p)]) for p in probes]
+
+        def getlist(p):
+            l = s.getlist(p)
+            r = [cx.vid(v) for v in l]
+            l.append('junk')        # the returned list is documented to be a copy: must not write through
+            return r
+        d['gl'] = [rd(lambda: getlist(p)) for p in probes]
         d['gi'] = [rd(lambda: cx.vid(s[p])) for p in probes]
         d['c'] = [rd(lambda: int(p in s)) for p in probes]
         d['cn'] = rd(lambda: [[cx.kid(k), n] for k, n in s.counts().items(multi=True)])
